@@ -75,6 +75,11 @@ CLAIMS = {
    text="632 corpus programs (harvested once from the repository's tests, covering every grammar construct), seeded typed composites and every .mec document are formatted; the text must re-parse to the same normalised tree, be a fixed point of formatting, and (for executable programs) evaluate to the same result and symbols. Differences are classified by the value-free path of the first differing node or by the construct responsible for an unparsable output.",
    note="The text formatter has many recorded emitter defects (multi-row matrices, tables, state machines, documents); composites are drawn mostly from constructs that round-trip so the remaining emitters stay monitored; failing documents are listed exactly.",
    ref="6/C08"),
+ "C10": dict(
+   technique="runtime monitoring: differential oracle interpret(document) vs interpret(code only) on canonical symbol tables; per-namespace reference sessions compared with the sub-interpreters' symbol tables; static prose corpus swept by snippet x position and by ordered snippet pairs",
+   text="Every prose snippet of a static 40-element corpus at every position of a program, every ordered pair of adjacent snippets, and seeded interleavings of generated programs with prose must leave the final variables exactly as the code alone leaves them; statements distributed over named fences must populate one isolated namespace per name (split fences share it), leak nothing into the unnamed program, and a failing statement inside a named fence must not stop the rest of the document.",
+   note="The prose corpus is static and hand written from the Mechdown documentation; code blocks and prose are separated by blank lines.",
+   ref="6/C10"),
 }
 NOT_YET = "not claimed yet: the monitor for this property is still being built in this session (see DESIGN.md section 6 for the planned check)"
 
